@@ -379,7 +379,7 @@ def run(ctx):
         fail = [a for a in ALGS if runs[a]["res"] is None]
         if fail:
             if len(fail) == len(ALGS):
-                ctx.hist("skipped_not_adjusted", 1)      # e.g. points without coordinates that the initialisation cannot reach
+                ctx.skipped("skipped_not_adjusted", {"input": txt})      # e.g. points without coordinates that the initialisation cannot reach
                 if any(runs[a]["rc"] < 0 or runs[a]["rc"] == 124 for a in ALGS):
                     ctx.violation({"kind": "E:g3", "input": txt, "rc": {a: runs[a]["rc"] for a in ALGS}, "stderr": runs[fail[0]]["err"][-500:]}, "gama-g3 crashed / hung"); bad += 1
                 continue
